@@ -36,7 +36,7 @@ EXHAUSTIVE_DOMAIN = {
     "thorough": "same shape enumeration with sliver lengths {1e-12, 1e-10, 5e-9, 9.9e-9} and thresholds {None, 1e-8, 1e-3, 0.06} in all four formats",
 }
 THRESHOLDS = (None, 1e-8, 1e-3, 0.06)
-SEG_LENGTHS = (1e-12, 1e-10, 5e-9, 9.9e-9, 1.01e-8, 2e-8, 5e-8, 1e-3, 0.05, 0.07, 1.0)
+SEG_LENGTHS = (1e-12, 2e-11, 1e-10, 5e-9, 9.9e-9, 1.01e-8, 2e-8, 5e-8, 1e-3, 0.05, 0.07, 1.0)
 
 
 def floors(tier):
@@ -387,9 +387,9 @@ def workload(tier, rng, shard, nshards, work):
             segs = []
             for _ in range(nseg):
                 r = rng.random()
-                length = rng.choice(SEG_LENGTHS[:7]) if r < 0.45 else rng.choice(SEG_LENGTHS[7:])
+                length = rng.choice(SEG_LENGTHS[:8]) if r < 0.45 else rng.choice(SEG_LENGTHS[8:])
                 segs.append((length, rng.choice(["a", "b", "c d", 'q"', ""]) if rng.random() < 0.65 else None))
-            start = rng.choice([0.0, 0.0, 0.37, 1.0 / 3, 2.5])
+            start = rng.choice([0.0, 0.0, 0.37, 1.0 / 3, 2.5, 3600.5, 86400.25])  # also recordings whose time axis starts far from zero
             ents, end = assemble(start, segs)
             if not ents:
                 continue
